@@ -72,6 +72,10 @@ func runEncodeChain(t *simrt.Tape, keep bool) simrt.Outcome {
 	r := newSimRun("C08", t, keep)
 	dir := simTempDir()
 	n := 1 + t.Biased(30, 1, 5)
+	if t.Prob(1, 25) {
+		n = 200 + t.Choose(1300) // a long stream: whatever the command overlaps internally gets room to drift apart
+		r.stats["probe.long-stream"]++
+	}
 	rs := genCmdResults(r, n)
 	l := 1 + t.Choose(4)
 	chain := make([]string, l+1)
